@@ -139,6 +139,103 @@ let run_case op t =
       let which = next_str t in let dn = next_bool t in let sn = next_bool t in
       let ok = if which = "strchr" then not sn else nonnull2 (not dn) (not sn) in
       (leg ok (which ^ ".hpp"), sp ok)
+
+  | "str" ->
+      let cap = next_int t in let k = next_int t in let o = next_str t in
+      let rec rest acc = if more t then rest (next_z t :: acc) else List.rev acc in
+      let args = rest [] in
+      let a i = if i < List.length args then List.nth args i else Z0 in
+      let ua i = u (a i) in
+      let small z = let b = big_of_z z in if Big.fits_int b && Big.sign b >= 0 then Big.to_int b else max_int in
+      let codes str = List.init (String.length str) (fun i -> z_of_int (Char.code str.[i])) in
+      let src_all = codes "uvwxyz0123456789ABCDEFGHIJ" in
+      let take n l = List.filteri (fun i _ -> i < n) l in
+      let src n = take (small n) src_all in
+      let cstr n = src n @ [Z0] in
+      let zc = z_of_int cap in
+      let s = match str_make zc (codes "abcdefghijklmnopqrst") (z_of_int k) with Ok s -> s | _ -> failwith "init" in
+      let f = "basic_inplace_string.hpp" and fv = "basic_string_view.hpp" in
+      let size = str_size s in
+      let gt x y = Big.gt (big_of_z x) (big_of_z y) in
+      let of_res file r = match r with Ok _ -> "ok" | Contract -> "contract 1 # " ^ file | UB _ -> "ub" | OutOfFuel -> "fuel" in
+      let is_contract r = (match r with Contract -> true | _ -> false) in
+      let by_op ?(file = f) vo = (of_res file (str_step s vo), sp (str_pre_ok s vo)) in
+      let z = z_of_int (Char.code 'z') in
+      (match o with
+       | "ctor_ptr" -> let r = str_make zc src_all (ua 0) in (of_res f r, sp (not (gt (ua 0) zc)))
+       | "ctor_fill" -> let r = str_ctor_fill zc (ua 0) z in (of_res f r, sp (not (gt (ua 0) zc)))
+       | "asg_cstr" -> by_op (OAssignCstr (cstr (ua 0)))
+       | "asg_fill" -> by_op (OAssignFill (ua 0, z))
+       | "asg_ptr" -> by_op (OAssignPtr (src_all, ua 0))
+       | "asg_view_sub" -> by_op ~file:(if gt (ua 1) (ua 0) then fv else f) (OAssignViewSub (src (ua 0), ua 1, ua 2))
+       | "front" | "cfront" -> let r = str_front s in (of_res f r, sp (Big.sign (big_of_z size) > 0))
+       | "back" | "cback" -> let r = str_back s in (of_res f r, sp (Big.sign (big_of_z size) > 0))
+       | "idx" | "cidx" -> let r = str_index s (ua 0) in (of_res f r, sp (not (gt (ua 0) size)))
+       | "era_it" -> by_op (OEraseRange (ua 0, ua 1))
+       | "era_pos" -> by_op (OErasePos (ua 0))
+       | "era" -> by_op (OErase (ua 0, ua 1))
+       | "pb" -> by_op (OPushBack z)
+       | "pop" -> by_op OPopBack
+       | "ins_fill" -> by_op (OInsertFill (ua 0, ua 1, z))
+       | "ins_cstr" -> by_op (OInsertCstr (ua 0, cstr (ua 1)))
+       | "ins_ptr" -> by_op (OInsertPtr (ua 0, src_all, ua 1))
+       | "ins_str" | "ins_view" -> by_op (OInsertPtr (ua 0, src (ua 1), ua 1))
+       | "ins_str_sub" | "ins_view_sub" ->
+           by_op ~file:(if gt (ua 0) size then f else fv) (OInsertStrSub (ua 0, src (ua 1), ua 2, ua 3))
+       | "rep" -> let r = str_replace s (ua 0) (ua 1) (src (ua 2)) in (of_res f r, sp (not (gt (ua 0) size)))
+       | "rep5" -> let r = str_replace5 s (ua 0) (ua 1) (src (ua 2)) (ua 3) (ua 4) in
+                   (of_res f r, sp (not (gt (ua 0) size) && not (gt (ua 3) (ua 2))))
+       | "rep_ptr" -> let r = str_replace_ptr s (ua 0) (ua 1) src_all (ua 2) in (of_res f r, sp (not (gt (ua 0) size)))
+       | "rep_cstr" -> let r = str_replace_cstr s (ua 0) (ua 1) (cstr (ua 2)) in (of_res f r, sp (not (gt (ua 0) size)))
+       | "app_view_sub" -> by_op ~file:fv (OAppendViewSub (src (ua 0), ua 1, ua 2))
+       | "app_str" | "pluseq_str" -> by_op (OAppendStr (src (ua 0)))
+       | "app_str_sub" -> by_op (OAppendStrSub (src (ua 0), ua 1, ua 2))
+       | "app_rng" -> by_op (OAppendRange (src (ua 0)))
+       | "app_fill" -> by_op (OAppendFill (ua 0, z))
+       | "app_ptr" -> by_op (OAppendPtr (src_all, if gt (ua 0) (z_of_int 26) then z_of_int 26 else ua 0))
+       | "resize" -> by_op (OResize (ua 0, z))
+       | "substr" -> by_op (OSubstr (ua 0, ua 1))
+       | "clear" -> by_op OClear
+       | _ -> raise Not_found)
+  | "sset" ->
+      let d = next_z t in
+      (leg (static_set_ctor (z_of_int 4) d) "static_set.hpp", sp (pre_range_fits (z_of_int 4) d))
+  | "cpy" ->
+      let which = next_str t in let dn = next_bool t in let sn = next_bool t in
+      (leg (copy_ptrs_guard (not dn) (not sn)) (which ^ ".hpp"), sp (pre_both_nonnull (not dn) (not sn)))
+  | "linalg" ->
+      let which = next_str t in
+      let rec rest acc = if more t then rest (next_z t :: acc) else List.rev acc in
+      let e = Array.of_list (rest []) in
+      (match which with
+       | "add1" -> (leg (linalg_add_guard [e.(0)] [e.(1)] [e.(2)]) "blas1_add.hpp", sp (e.(0) = e.(1) && e.(0) = e.(2)))
+       | "copy1" -> (leg (linalg_copy_guard [e.(0)] [e.(1)]) "blas1_copy.hpp", sp (e.(0) = e.(1)))
+       | "swap1" -> (leg (linalg_swap_guard [e.(0)] [e.(1)]) "blas1_swap_elements.hpp", sp (e.(0) = e.(1)))
+       | "add2" -> (leg (linalg_add_guard [e.(0); e.(1)] [e.(2); e.(3)] [e.(4); e.(5)]) "blas1_add.hpp",
+                    sp ([e.(0); e.(1)] = [e.(2); e.(3)] && [e.(0); e.(1)] = [e.(4); e.(5)]))
+       | "copy2" -> (leg (linalg_copy_guard [e.(0); e.(1)] [e.(2); e.(3)]) "blas1_copy.hpp", sp ([e.(0); e.(1)] = [e.(2); e.(3)]))
+       | "swap2" -> (leg (linalg_swap_guard [e.(0); e.(1)] [e.(2); e.(3)]) "blas1_swap_elements.hpp", sp ([e.(0); e.(1)] = [e.(2); e.(3)]))
+       | "mvp" -> (leg (linalg_mvp_guard e.(0) e.(1) e.(2) e.(3)) "blas2_matrix_vector_product.hpp", sp (e.(1) = e.(2) && e.(0) = e.(3)))
+       | _ -> raise Not_found)
+  | "sstride" ->
+      let r = next_z t in
+      (leg (layout_stride_stride_guard (z_of_int 2) r) "layout_stride.hpp", sp (pre_index (z_of_int 2) (u r)))
+  | "bsstr" ->
+      let chars = next_zlist t in let pos = next_z t in let n = next_z t in
+      let zero = z_of_int 48 and one = z_of_int 49 in
+      (leg (bitset_str_guard chars pos n zero one) "bitset.hpp", sp (pre_bitset_str chars (u pos) (u n) zero one))
+  | "tostr" ->
+      let cap = next_z t in let ty = next_str t in let v = next_z t in
+      let v = if ty = "int" then (let b = Big.erem (big_of_z v) (Big.shift_left Big.one 32) in
+                                  z_of_big (if Big.geq b (Big.shift_left Big.one 31) then Big.sub b (Big.shift_left Big.one 32) else b)) else v in
+      (match to_string_guard cap v with
+       | Some ok -> (leg ok "to_string.hpp", sp (pre_to_string cap v))
+       | None -> ("fuel", sp (pre_to_string cap v)))
+  | "fmt" ->
+      let chars = next_zlist t in
+      (match format_escaped_guard chars with
+       | Some ok -> (leg ok "argument.hpp", "na")
+       | None -> ("fuel", "na"))
   | _ -> raise Not_found
 
 let () = main run_case
